@@ -8,6 +8,8 @@ import (
 	"sync/atomic"
 	"time"
 
+	"tunnox-core/internal/client/mapping"
+	"tunnox-core/internal/config"
 	"tunnox-core/verifharness/fw"
 )
 
@@ -322,6 +324,98 @@ func (s *rsock) drained() bool      { return false }
 func (s *rsock) delivered() int     { s.mu.Lock(); defer s.mu.Unlock(); return s.count }
 func (s *rsock) shutdown()          { s.relay.Close(); s.peer.Close() }
 
+// vsock: the REAL mapping.UDPVirtualConn of a real mapping.UDPMappingAdapter listening on a
+// loopback port. The peer's first datagram creates the session (and is datagram 1 of the
+// UDP -> tunnel direction); what the relay writes goes through UDPVirtualConn.Write -> writeChan
+// -> writeLoop -> the listener socket, and is observed on the peer's socket.
+type vsock struct {
+	rec     *recorder
+	adapter *mapping.UDPMappingAdapter
+	vconn   io.ReadWriteCloser
+	peer    *net.UDPConn
+	to      *net.UDPAddr
+	mu      sync.Mutex
+	count   int
+}
+
+var vsockMu sync.Mutex // one adapter start at a time (free-port probing)
+
+func newVsock(rec *recorder, first []byte) (*vsock, error) {
+	vsockMu.Lock()
+	defer vsockMu.Unlock()
+	var lastErr error
+	for attempt := 0; attempt < 5; attempt++ {
+		probe, err := net.ListenUDP("udp4", &net.UDPAddr{IP: net.IPv4(127, 0, 0, 1)})
+		if err != nil {
+			return nil, err
+		}
+		port := probe.LocalAddr().(*net.UDPAddr).Port
+		probe.Close()
+		ad := mapping.NewUDPMappingAdapter()
+		if err := ad.StartListener(config.MappingConfig{MappingID: "m-c12", Protocol: "udp", LocalPort: port}); err != nil {
+			lastErr = err
+			continue
+		}
+		peer, err := net.ListenUDP("udp4", &net.UDPAddr{IP: net.IPv4(127, 0, 0, 1)})
+		if err != nil {
+			ad.Close()
+			return nil, err
+		}
+		peer.SetReadBuffer(4 << 20)
+		s := &vsock{rec: rec, adapter: ad, peer: peer, to: &net.UDPAddr{IP: net.IPv4(127, 0, 0, 1), Port: port}}
+		if _, err := peer.WriteToUDP(first, s.to); err != nil {
+			s.shutdown()
+			return nil, err
+		}
+		acc := make(chan io.ReadWriteCloser, 1)
+		go func() {
+			c, _ := ad.Accept()
+			acc <- c
+		}()
+		select {
+		case c := <-acc:
+			if c == nil {
+				s.shutdown()
+				lastErr = fmt.Errorf("adapter closed")
+				continue
+			}
+			s.vconn = c
+		case <-time.After(2 * time.Second):
+			s.shutdown()
+			lastErr = fmt.Errorf("no session within 2 s")
+			continue
+		}
+		go func() {
+			buf := make([]byte, 70000)
+			for {
+				n, _, err := peer.ReadFromUDP(buf)
+				if err != nil {
+					return
+				}
+				idx, ok := checkDatagram(buf[:n], tagT)
+				s.mu.Lock()
+				s.rec.add(fw.Event{"ev": "UDeliver", "idx": idx, "len": n, "ok": ok})
+				s.count++
+				s.mu.Unlock()
+			}
+		}()
+		return s, nil
+	}
+	return nil, lastErr
+}
+func (s *vsock) conn() io.ReadWriteCloser { return s.vconn }
+func (s *vsock) peerSend(p []byte) error  { _, err := s.peer.WriteToUDP(p, s.to); return err }
+func (s *vsock) readerParked() bool       { return false }
+func (s *vsock) drained() bool            { return false }
+func (s *vsock) delivered() int           { s.mu.Lock(); defer s.mu.Unlock(); return s.count }
+func (s *vsock) shutdown() {
+	if s.vconn != nil {
+		s.vconn.Close()
+	}
+	s.adapter.Close()
+	s.peer.Close()
+}
+
 type udpSpec struct {
 	Kind   string `json:"kind"`
 	Via    string `json:"via"`
@@ -372,7 +466,17 @@ func driveUDP(env *fw.Env, sp udpSpec) *fw.Trace {
 		tun.failing = true
 	}
 	var side udpSide
-	if sp.Sock == "real" {
+	firstSent := false
+	if sp.Sock == "vconn" {
+		if len(sp.U) == 0 {
+			return &fw.Trace{Status: fw.DriverError, Note: "vconn behaviour needs a first datagram from the peer"}
+		}
+		vs, err := newVsock(rec, mkDatagram(tagU, 1, sp.U[0]))
+		if err != nil {
+			return &fw.Trace{Status: fw.Inconclusive, Note: "no UDP mapping adapter here: " + err.Error()}
+		}
+		side, firstSent = vs, true
+	} else if sp.Sock == "real" {
 		rs, err := newRsock(rec)
 		if err != nil {
 			return &fw.Trace{Status: fw.Inconclusive, Note: "no loopback UDP here: " + err.Error()}
@@ -402,6 +506,9 @@ func driveUDP(env *fw.Env, sp udpSpec) *fw.Trace {
 	released := false
 	for i, s := range sp.U {
 		rec.add(fw.Event{"ev": "USent", "idx": i + 1})
+		if i == 0 && firstSent {
+			continue // it created the session
+		}
 		if err := side.peerSend(mkDatagram(tagU, i+1, s)); err != nil {
 			side.shutdown()
 			tun.Close()
@@ -458,7 +565,7 @@ func driveUDP(env *fw.Env, sp udpSpec) *fw.Trace {
 	case ret = <-done:
 	case <-time.After(watchdog):
 	}
-	if ret != nil && sp.Sock == "real" && sp.How == "eof" {
+	if ret != nil && sp.Sock != "fake" && sp.How == "eof" {
 		want := wholeBefore(sp.T, sp.Cut)
 		for dl := time.Now().Add(3 * time.Second); side.delivered() < want && time.Now().Before(dl); {
 			time.Sleep(time.Millisecond)
